@@ -121,17 +121,17 @@ pub fn bcd_min(mut v: u64) -> Vec<u8> {
 }
 
 /// BCD digits to number; a low nibble F ends an odd digit string; overflow of
-/// `bits` is an error. Nibbles A-E are outside the format (treated as their value like a digit
-/// would be is NOT assumed: they are rejected here, so such inputs are never "canonical").
+/// `bits` is an error.
 pub fn bcd_parse(b: &[u8], bits: u32) -> Result<u64, RefErr> {
     let max: u128 = if bits >= 64 { u64::MAX as u128 } else { (1u128 << bits) - 1 };
     let mut v: u128 = 0;
     for x in b {
         let hi = (x >> 4) as u128;
         let lo = (x & 0xf) as u128;
-        if hi > 9 || (lo > 9 && lo != 0xf) {
-            return Err(RefErr::Malformed("non-digit BCD nibble".into()));
-        }
+        // Nibbles A-E are outside the format. They are read arithmetically (like a digit) rather
+        // than rejected, so that an absent positional optional followed by *any* bytes of its
+        // width counts as "can be read as that field" and is excluded from the canonical domain
+        // (DESIGN.md 5.1) whatever the bytes are.
         if lo == 0xf {
             v = v * 10 + hi;
         } else {
